@@ -183,6 +183,18 @@ func (r *Run) healKeystore(id string) {
 // Every event records the description of the calls that failed (Hits) and of the calls the
 // operation made after its first failing call (After: the repair / reload / retry path).
 func RunFaultPlan(s *Script, plan Plan, twin *Twin) (*FaultResult, error) {
+	return runFaultPlan(s, plan, twin, os.Getenv("VERIF_CF_TRACK") != "")
+}
+
+// RunFaultPlanTracked is RunFaultPlan that compares the state with the twin's after EVERY operation
+// (also the undisturbed ones): it names the operation after which a run starts to differ.  Used to
+// attribute a divergence that RunFaultPlan noticed only later (at the next faulted operation, or
+// at the end), on plans reduced to one faulted operation.
+func RunFaultPlanTracked(s *Script, plan Plan, twin *Twin) (*FaultResult, error) {
+	return runFaultPlan(s, plan, twin, true)
+}
+
+func runFaultPlan(s *Script, plan Plan, twin *Twin, track bool) (*FaultResult, error) {
 	r, err := NewRun(s)
 	if err != nil {
 		return nil, err
@@ -229,6 +241,19 @@ func RunFaultPlan(s *Script, plan Plan, twin *Twin) (*FaultResult, error) {
 			}
 			if Faultable(op.Kind) {
 				cache = ""
+			}
+			if track && len(res.Events) > 0 && len(twin.Snap) > i && twin.Snap[i] != "" {
+				// VERIF_CF_TRACK=1 (debugging aid): where does a run start to differ from its twin?
+				if now := r.Snapshot(); now != twin.Snap[i] {
+					field, a, b := firstDiff(twin.Snap[i], now)
+					last := res.Events[len(res.Events)-1]
+					what := last.CallKind.String() + "@" + last.Site
+					if len(last.Hits) > 0 {
+						what = last.Hits[0].Kind.String() + "@" + last.Hits[0].Site
+					}
+					return fail("state-differs-later:"+op.Kind.String()+":"+field+":after-"+s.OpLabel(last.Op)+"/"+what,
+						"operation %d (%v), run without a fault after the faults %v: afterwards the wallet reports [%s], the fault-free run [%s]", i, op.Kind, res.Events, b, a)
+				}
 			}
 			continue
 		}
@@ -375,12 +400,33 @@ func RunFaultPlan(s *Script, plan Plan, twin *Twin) (*FaultResult, error) {
 			}
 		}
 	}
+	var store map[string]string
+	if twin.Store != nil {
+		store, _ = r.StoreDump()
+	}
 	res.Final = r.Snapshot()
 	res.Lines = append(r.Lines, "E")
 	if res.Final != twin.Final {
 		field, a, b := firstDiff(twin.Final, res.Final)
 		res.Viol = &Violation{Key: "final-state-differs-after-faults:" + field,
 			What: fmt.Sprintf("after faults %v the wallet finally reports [%s], the fault-free run [%s]", res.Events, b, a)}
+	} else if store != nil {
+		if bucket, what := storeDiff(twin, store); what != "" {
+			last := "?"
+			if len(res.Events) > 0 {
+				e := res.Events[len(res.Events)-1]
+				last = s.OpLabel(e.Op) + "/" + e.CallKind.String() + "@" + e.Site
+				if len(e.Hits) > 0 {
+					last = s.OpLabel(e.Op) + "/" + e.Hits[0].Kind.String() + "@" + e.Hits[0].Site
+					for _, h := range e.Hits[1:] {
+						last += "+" + h.Kind.String() + "@" + h.Site
+					}
+				}
+			}
+			_ = bucket // (the buckets are named in the text: one cause shows in several)
+			res.Viol = &Violation{Key: "final-store-differs:after-" + last,
+				What: fmt.Sprintf("after faults %v the wallet reports what the fault-free run reports, but its database differs from the fault-free run's: %s", res.Events, what)}
+		}
 	}
 	return res, nil
 }
